@@ -83,6 +83,40 @@ Section Generic.
     destruct (fold_left item_fold (filter is_item m) (s, [], [])) as [[s1 out1] ins] eqn:E.
     cbn [fst] in *. exact H.
   Qed.
+
+  Lemma item_fold_inserted items : forall s out ins,
+    (forall q, In q ins -> v (fst q) (snd q) = true) ->
+    forall q, In q (snd (fold_left item_fold items (s, out, ins))) ->
+      (In q (flat_map part_values items) \/ In q ins) /\ v (fst q) (snd q) = true.
+  Proof.
+    induction items as [|it items IH]; intros s out ins Hins q Hq; cbn [fold_left flat_map] in *.
+    - cbn in Hq. split; auto.
+    - destruct it as [x y fp|x y vs hl]; cbn [item_fold part_values app] in *.
+      + apply IH in Hq; auto.
+      + unfold process_item in Hq.
+        destruct (store_values ops validate s vs) as [s' i] eqn:SV.
+        assert (HI : forall q, In q i -> In q vs /\ v (fst q) (snd q) = true).
+        { intros q' Hq'. apply (store_values_inserted vs s q'). now rewrite SV. }
+        assert (PRE : forall q0, In q0 (ins ++ i) -> v (fst q0) (snd q0) = true).
+        { intros q0 H0. apply in_app_or in H0. destruct H0 as [H0|H0]; [now apply Hins | now destruct (HI q0 H0)]. }
+        destruct (IH s' _ (ins ++ i) PRE q Hq) as [[A|A] V]; split; auto.
+        * left. apply in_or_app. now right.
+        * apply in_app_or in A. destruct A as [A|A]; [now right|]. left. apply in_or_app. left. now destruct (HI q A).
+  Qed.
+
+  (** every entry a message causes to be inserted (and announced) was one of its values and
+      passed the validation callback *)
+  Theorem process_message_inserted s m p :
+    In p (snd (process_message ops mss k status_of validate s m)) ->
+    In p (message_values m) /\ v (fst p) (snd p) = true.
+  Proof.
+    unfold process_message, message_values. fold item_fold.
+    destruct (fold_left item_fold (filter is_item m) (s, [], [])) as [[s1 out1] ins1] eqn:E.
+    cbn [snd]. intros H.
+    assert (H' : In p (snd (fold_left item_fold (filter is_item m) (s, [], [])))) by now rewrite E.
+    destruct (item_fold_inserted (filter is_item m) s [] [] (fun q F => match F with end) p H') as [[A|[]] V].
+    split; auto.
+  Qed.
 End Generic.
 
 (** counters: what one side counts as sent is what the other counts as received *)
